@@ -265,6 +265,8 @@ func main() {
 		modeQuic(*n)
 	case "qreplay":
 		modeQReplay(*in, time.Duration(*n)*time.Millisecond)
+	case "rreplay":
+		modeRReplay(*in, time.Duration(*n)*time.Millisecond)
 	default:
 		panic("unknown mode " + *mode)
 	}
